@@ -1314,8 +1314,8 @@ class Transport(threading.Thread, ClosingContextManager):
     def accept(self, timeout=None):
         """
         Return the next channel opened by the client over this transport, in
-        server mode.  If no channel is opened before the given timeout,
-        ``None`` is returned.
+        server mode.  If no channel is opened before the given timeout, or
+        the session has ended, ``None`` is returned.
 
         :param int timeout:
             seconds to wait for a channel, or ``None`` to wait forever
@@ -1325,6 +1325,9 @@ class Transport(threading.Thread, ClosingContextManager):
         try:
             if len(self.server_accepts) > 0:
                 chan = self.server_accepts.pop(0)
+            elif not self.active:
+                # the session is over: nobody is left to notify us
+                chan = None
             else:
                 self.server_accept_cv.wait(timeout)
                 if len(self.server_accepts) > 0:
